@@ -315,7 +315,8 @@ class Runner:
         rec['replay_native'] = ll[:300]
         if ll.startswith('ASSERT-FAIL'): return True, os.path.join(rdir, q.name + '.json')
         if 'AddressSanitizer' in out or 'runtime error' in out or 'LeakSanitizer' in out or (rc not in (0,) and not ll.startswith('PASS')):
-            rec['replay_native'] = 'SANITIZER/CRASH: ' + out.strip()[-400:]
+            key = [l.strip() for l in out.split('\n') if 'ERROR: AddressSanitizer' in l or 'runtime error' in l or 'LeakSanitizer' in l or 'terminate called' in l or 'SUMMARY' in l]
+            rec['replay_native'] = 'SANITIZER/CRASH: ' + (' | '.join(key[:3])[:500] if key else out.strip()[-400:])
             return True, os.path.join(rdir, q.name + '.json')
         return False, os.path.join(rdir, q.name + '.json')
 
@@ -335,7 +336,7 @@ class Runner:
                 rec['status'] = 'INCONCLUSIVE'
                 return rec
             fails = [r for r in res if r['status'] == 'FAILURE' and not is_unwind(r)]
-            errs = [r for r in res if r['status'] in ('ERROR', 'UNKNOWN')]
+            errs = [r for r in res if r['status'] == 'ERROR' or (r['status'] == 'UNKNOWN' and not fails)]
             if errs:
                 rec['status'] = 'INCONCLUSIVE'; rec['verdict'] = 'CBMC-ERROR'; return rec
             if fails:
